@@ -35,14 +35,15 @@ def trange(ty):
 
 
 class IntV:
-    __slots__ = ("e", "ty", "lowzero")
+    __slots__ = ("e", "ty", "lowzero", "zeromask")
 
-    def __init__(self, e, ty, lowzero=0):
+    def __init__(self, e, ty, lowzero=0, zeromask=0):
         if isinstance(e, int):
             e = z3.IntVal(e)
         self.e = e
         self.ty = ty
         self.lowzero = lowzero  # number of low bits syntactically known to be zero
+        self.zeromask = zeromask | ((1 << lowzero) - 1)  # bit positions syntactically known to be zero
 
     def __repr__(self):
         return f"IntV({self.e}:{self.ty})"
@@ -188,13 +189,13 @@ def trem(a, b):
 
 
 def mask_const(e, ty, mask):
-    """e & mask for a constant mask; e in range of ty; result in range of ty"""
+    """e & mask for a constant mask; e in range of ty; result in range of ty.
+    Two's complement bits of a (possibly negative) integer are given directly by floor division / Euclidean modulo,
+    so no reduction modulo 2^bits is needed; a run of ones that includes the sign bit keeps the sign."""
     bits, signed = INT_TYPES[ty]
     m = 1 << bits
     mask %= m
-    u = e % m if signed else e
-    # decompose into runs of ones
-    res = z3.IntVal(0)
+    res = None
     i = 0
     lz = None
     while i < bits:
@@ -204,14 +205,19 @@ def mask_const(e, ty, mask):
                 j += 1
             if lz is None:
                 lz = i
-            part = (u / (1 << i)) % (1 << (j - i)) if i > 0 else u % (1 << j)
-            res = res + part * (1 << i) if i > 0 else res + part
+            if j == bits and signed:
+                part = (e / (1 << i)) * (1 << i) if i > 0 else e
+            elif j == bits:
+                part = (e / (1 << i)) * (1 << i) if i > 0 else e
+            else:
+                part = ((e / (1 << i)) % (1 << (j - i))) * (1 << i) if i > 0 else e % (1 << j)
+            res = part if res is None else res + part
             i = j
         else:
             i += 1
-    if signed and (mask >> (bits - 1)) & 1:
-        res = z3.If(res >= (1 << (bits - 1)), res - m, res)
-    return z3.simplify(res) if z3.is_int_value(e) else res, (lz or 0)
+    if res is None:
+        res = z3.IntVal(0)
+    return (z3.simplify(res) if z3.is_int_value(e) else res), (lz or 0)
 
 
 # ------------------------------------------------------------------------------------------------
@@ -389,6 +395,8 @@ class Executor:
         self.stats = {"calls": 0, "blocks": 0, "bitor_queries": 0}
         self.cur_state = None
         self.div_cache = {}
+        self.summaries = {}  # short function name -> fn(executor, state, args) -> (state, value): proved contract used instead of the body
+        self.summarized = set()
 
     # -- helpers -------------------------------------------------------------------------------
     def fresh(self, prefix, sort="Int"):
@@ -410,6 +418,7 @@ class Executor:
         """is `claim` valid under assumptions, side constraints and pc?"""
         self.stats["bitor_queries"] += 1
         s = z3.Solver()
+        s.set("arith.solver", 2)
         s.set("timeout", 3000 if quick else 20000)
         for a in self.assumptions:
             s.add(a)
@@ -417,7 +426,15 @@ class Executor:
             s.add(a)
         s.add(pc)
         s.add(z3.Not(claim))
-        return s.check() == z3.unsat
+        import time as _t
+        t0 = _t.time()
+        r = s.check()
+        dt = _t.time() - t0
+        self.stats["prove_s"] = round(self.stats.get("prove_s", 0) + dt, 2)
+        if os.environ.get("MIRSMT_VERBOSE") and dt > 1:
+            import sys
+            print(f"  [exec] side query {r} {dt:.1f}s quick={quick} claim={str(claim)[:100]!r}", file=sys.stderr, flush=True)
+        return r == z3.unsat
 
     def subst_ty(self, s):
         for k, v in self.tyenv.items():
@@ -484,15 +501,30 @@ class Executor:
     def lookup_const(self, t):
         if t in self.p.consts:
             return self.p.consts[t]
+        # generic arguments in the referencing path (`f::<T>::promoted[0]`) are not part of the definition's name
+        t = "::".join(s_ for s_ in split_path(t) if not (s_.startswith("<") and s_.endswith(">")))
+        if t in self.p.consts:
+            return self.p.consts[t]
         # match by path suffix
         segs = split_path(t)
         cands = []
         for name, f in self.p.consts.items():
-            ns = split_path(re.sub(r"<impl at [^>]*>", "IMPL", name))
-            ns2 = [s for s in ns if s != "IMPL"]
+            mi = re.search(r"<impl at (src/[^:]+):(\d+):(\d+): [^>]*>", name)
+            selfname = None
+            if mi:
+                hdr = self.p.impl_header(mi.group(1), int(mi.group(2)), int(mi.group(3)))
+                if hdr:
+                    selfname = _base(hdr[1])
+            ns = split_path(re.sub(r"<impl at [^>]*>", selfname or "IMPL", name))
+            ns2 = [s_ for s_ in ns if s_ != "IMPL"]
             k = min(len(ns2), len(segs))
-            if ns2[-k:] == segs[-k:] or (len(segs) >= 2 and ns2[-1] == segs[-1] and _impl_self_matches(self.p, name, segs[-2])):
+            if ns2[-k:] == segs[-k:]:
                 cands.append(f)
+            elif selfname and len(segs) >= 2:
+                ns3 = [s_ for s_ in ns if s_ != selfname]
+                k3 = min(len(ns3), len(segs))
+                if ns3[-k3:] == segs[-k3:]:
+                    cands.append(f)
         if len(cands) == 1:
             return cands[0]
         if len(cands) > 1:
@@ -712,12 +744,13 @@ class Executor:
             k = b.e.as_long() % INT_TYPES[ty][0]
             return IntV(a.e / (1 << k), ty)  # floor division = arithmetic shift (signed) / logical (unsigned, value >= 0)
         if name == "BitAnd":
+            full = (1 << INT_TYPES[ty][0]) - 1
             if z3.is_int_value(b.e):
                 e, lz = mask_const(a.e, ty, b.e.as_long())
-                return IntV(e, ty, max(lz, a.lowzero))
+                return IntV(e, ty, max(lz, a.lowzero), (~b.e.as_long()) & full)
             if z3.is_int_value(a.e):
                 e, lz = mask_const(b.e, ty, a.e.as_long())
-                return IntV(e, ty, max(lz, b.lowzero))
+                return IntV(e, ty, max(lz, b.lowzero), (~a.e.as_long()) & full)
             raise Unsupported("BitAnd of two symbolic operands")
         if name == "BitOr":
             return self.bitor(st, a, b)
@@ -752,18 +785,39 @@ class Executor:
         return q, r
 
     def bitor(self, st, a, b):
+        """a | b == a + b when the operands are bit-disjoint; disjointness is established syntactically (known zero bits)
+        plus a solver query for the range of the other operand; otherwise the obligation is inconclusive"""
         ty = a.ty
         if z3.is_int_value(a.e) and z3.is_int_value(b.e):
             return IntV(a.e.as_long() | b.e.as_long(), ty)
-        # try disjointness: the operand with more known low zero bits is the "high" part
-        hi, lo = (a, b) if a.lowzero >= b.lowzero else (b, a)
-        k = hi.lowzero
-        if k > 0:
-            lim = 1 << k
-            if z3.is_int_value(lo.e) and 0 <= lo.e.as_long() < lim:
-                return IntV(hi.e + lo.e, ty, lo.lowzero if lo.e.as_long() else k)
-            if self.prove(st.pc, z3.And(lo.e >= 0, lo.e < lim)):
-                return IntV(hi.e + lo.e, ty, min(lo.lowzero, k))
+        bits = INT_TYPES[ty][0]
+        cands = []
+        for x, y in ((a, b), (b, a)):
+            # y occupies bits [y.lowzero, hi) if 0 <= y < 2^hi ; x must be zero there
+            lo = y.lowzero
+            if lo < bits and (x.zeromask >> lo) & 1:
+                hi_ = lo
+                while hi_ < bits and (x.zeromask >> hi_) & 1:
+                    hi_ += 1
+                if hi_ < bits:
+                    cands.append((x, y, hi_))
+            # x is a multiple of 2^k and y < 2^k
+            k = x.lowzero
+            if k > 0 and k != lo:
+                cands.append((x, y, k))
+        seen = set()
+        for quick in (True, False):
+            for x, y, hi_ in cands:
+                if z3.is_int_value(y.e):
+                    if 0 <= y.e.as_long() < (1 << hi_):
+                        return IntV(x.e + y.e, ty, min(x.lowzero, y.lowzero))
+                    continue
+                key = (id(x), id(y), hi_, quick)
+                if key in seen:
+                    continue
+                seen.add(key)
+                if self.prove(st.pc, z3.And(y.e >= 0, y.e < (1 << hi_)), quick=quick):
+                    return IntV(x.e + y.e, ty, min(x.lowzero, y.lowzero))
         raise Unsupported("BitOr of operands not provably bit-disjoint")
 
     def cast(self, v, target, kind):
@@ -800,6 +854,9 @@ class Executor:
                     return BoolV(z3.Not(v.e))
                 if isinstance(v, IntV):
                     bits, signed = INT_TYPES[v.ty]
+                    if z3.is_int_value(v.e):
+                        c = v.e.as_long()
+                        return IntV(-c - 1 if signed else ((1 << bits) - 1) - c, v.ty)
                     return IntV(-v.e - 1 if signed else ((1 << bits) - 1) - v.e, v.ty)
             if rv[1] == "Neg" and isinstance(v, IntV):
                 return IntV(self.norm(st, -v.e, v.ty), v.ty)
@@ -870,8 +927,27 @@ class Executor:
         f, env = self.resolve(callee, args)
         if f is None:
             raise Unsupported(f"call to {callee!r} (no body / not modelled)")
+        short = re.sub(r"<impl at [^>]*>::", "", f.name)
+        if short in self.summaries:
+            self.summarized.add(short)
+            return self.summaries[short](self, st, args)
         if self.depth > self.max_depth:
             raise Unsupported("call depth exceeded")
+        saved = self.tyenv
+        self.tyenv = dict(saved)
+        self.tyenv.update(env)
+        self.depth += 1
+        try:
+            return self.exec_fn(f, args, st)
+        finally:
+            self.depth -= 1
+            self.tyenv = saved
+
+    def exec_real(self, callee, st, args):
+        """run the real MIR body of `callee` (for summaries that only decorate the real result)"""
+        f, env = self.resolve(callee, args)
+        if f is None:
+            raise Unsupported(f"exec_real: {callee} not found")
         saved = self.tyenv
         self.tyenv = dict(saved)
         self.tyenv.update(env)
@@ -898,6 +974,11 @@ class Executor:
                 return f, env
             if len(cands) > 1:
                 raise Unsupported(f"ambiguous trait impl for {callee}")
+            # blanket impl `impl<T> Trait for T`
+            bl = p.traitimpl.get(("T", _base(trait), meth), [])
+            if len(bl) == 1:
+                env["T"] = selfty_nr
+                return bl[0][0], env
             dfl = p.traitdefault.get((_base(trait), meth), [])
             if len(dfl) == 1:
                 env["Self"] = selfty_nr
